@@ -89,10 +89,22 @@ func main() {
 	repo := flag.String("repo", "/repo", "repository root")
 	out := flag.String("out", "/verif", "directory holding evidence/ and KNOWN_FINDINGS.txt")
 	list := flag.Bool("list", false, "list properties and rules")
+	doc := flag.Bool("doc", false, "print the rule documentation (markdown) of all properties")
 	verbose := flag.Bool("v", false, "print every obligation")
 	noEvidence := flag.Bool("no-evidence", false, "do not write evidence files (self-test on scratch copies)")
 	flag.Parse()
 
+	if *doc {
+		for _, id := range sortedProps() {
+			p := registry[id]
+			fmt.Printf("### %s\n\n%s\n\n", id, p.Explanation)
+			for _, r := range p.Rules {
+				fmt.Printf("* **%s** — %s\n", r.ID, r.Text)
+			}
+			fmt.Printf("\nAssumed: %s.\n\n", strings.Join(p.Assumptions, "; "))
+		}
+		return
+	}
 	if *list {
 		ids := sortedProps()
 		for _, id := range ids {
